@@ -118,6 +118,14 @@ def main():
         try:
             thorough['bits_axiom_instances_checked_against_cpython'] = pybits.selftest_axioms(lim=40, kmax=9)
             thorough['seq_axiom_instances_checked_against_cpython'] = pyseqs.selftest()
+            # TEXT theory (contracts/formats_chars.py): CPython against every lemma schema and against the copy of the Lean definitions;
+            # CPython against the Lean definitions themselves (#eval); the precondition of lemma.cxt.roundtrip is used by its proof
+            from pyvc import texts as pytexts
+            from contracts import formats_chars as pychars
+            thorough['text_lemma_instances_checked_against_cpython'] = pytexts.selftest()
+            if os.path.isdir(pytexts.LEAN_DIR):
+                thorough['text_lean_definitions_evaluated_against_cpython'] = pytexts.selftest_lean()
+            thorough['cxt_roundtrip_weakened_preconditions_refused'] = pychars.necessity()
         except AssertionError as e:
             selfcheck_problems.append('theory axiom refuted by CPython: %r' % (e,))
         os.environ.setdefault('PYVC_Z3_TIMEOUT_MS', '5000')
